@@ -333,7 +333,7 @@ example : printList 1 none (wordOpd ['a'])
     = [' ', 'a', ' ', ' ', ' ', 'A', 'N', 'D', ' ', 'b', ' ', 'O', 'R', ' ', ' ', '-', 'c', ' '] := by decide
 example : PlainWord ['b'] ∧ PlainWord ['c'] := ⟨⟨by simp, by decide, by decide⟩, ⟨by simp, by decide, by decide⟩⟩
 
-/-- **print/parse for the nested fragment** (`WFOpd`: plain words, double-quoted phrases without escapes — any characters but `"` and `\` —, either of them with a field prefix `name:` (the name a plain word), and parenthesised operand lists
+/-- **print/parse for the nested fragment** (`WFOpd`: plain words, double-quoted phrases without escapes — any characters but `"` and `\` —, either of them with a field prefix `name:` (the name a plain word), `NOT x` of a well-formed operand, and parenthesised operand lists
     of well-formed operands, to any depth, each list with `+`/`-` markers, `AND `/`OR ` and any
     layout): the strict parser reads the printed text as the tree the printer's structure denotes —
     at every level the fold (`strictAst`, see `C16_listTree_is_fold`) of the operands' trees —
@@ -375,6 +375,13 @@ example : (fieldWordOpd ['t'] ['a']).text = ['t', ':', 'a']
     ∧ WFOpd (fieldPhraseOpd ['t'] ['a', ' ', 'b']) :=
   ⟨by decide, rfl, .fieldWord _ _ ⟨by simp, by decide, by decide⟩ ⟨by simp, by decide, by decide⟩,
     .fieldPhrase _ _ ⟨by simp, by decide, by decide⟩ (by simp [PhraseBody])⟩
+
+/-- `NOT  t:a` is a well-formed operand, read as the clause `(-t:a)` -/
+example : (notOpd 1 (fieldWordOpd ['t'] ['a'])).text = ['N', 'O', 'T', ' ', ' ', 't', ':', 'a']
+    ∧ (notOpd 1 (fieldWordOpd ['t'] ['a'])).leaf
+        = .clause [(some .mustNot, .leaf (.literal (some ['t']) ['a'] .none 0 false))]
+    ∧ WFOpd (notOpd 1 (fieldWordOpd ['t'] ['a'])) :=
+  ⟨by decide, rfl, .not _ _ (.fieldWord _ _ ⟨by simp, by decide, by decide⟩ ⟨by simp, by decide, by decide⟩)⟩
 
 /-- `C16_print_parse_partial`: the documented forms parse to the documented trees -/
 theorem C16_print_parse_partial :
